@@ -27,6 +27,8 @@ type docNode struct {
 	F map[string]*docNode `json:"f,omitempty"`
 	V []*docNode          `json:"v,omitempty"`
 	S string              `json:"s,omitempty"`
+	// HMM variant carried by the opaque parameters of a configuration node
+	Hv string `json:"hv,omitempty"`
 }
 
 type absObj struct {
@@ -85,6 +87,7 @@ type tcase struct {
 	Exp    absExp   `json:"exp"`
 	Dev    string   `json:"dev"`
 	Model  string   `json:"model"`
+	Layout string   `json:"layout"`
 	// replay of a byte-mutation violation: the mutated document itself
 	Mutated *string `json:"mutated,omitempty"`
 }
